@@ -286,6 +286,21 @@ CHECKS['C16'] = dict(
     technique='exhaustive closed evaluation of the writer/parser pair and of game reconstruction (real code, finite domain) + AST scan; bounded '
               'round-trip / replay stand-in')
 
+CHECKS['C17'] = dict(
+    category='other',
+    text='The emitters build text with f-strings and the inverse parser is regex-driven -- outside the subset of the VC generator, so no SMT '
+         'obligation is claimed. Three lemmas are decided on the real source by data-flow scans combined with the C01 invariant (payoff = '
+         'stack - starting stack at every point): (p1) in to_acpc_protocol and to_pluribus_protocol the no-limit raise token is '
+         '`r` + (-state.payoffs[raiser]) read from the replayed state, i.e. the total the player has committed; (p2) the Pluribus result field '
+         'is finishing stack - starting stack per seat, i.e. the payoffs of the terminal state; (p3) a seat\'s cards are written only from its '
+         'own dealings (the viewer\'s seat in ACPC, every seat in Pluribus) and from what a seat showed. Order and separators of the text, and '
+         'that parsing a line back replays to the same actions, stacks and line, are covered only by a bounded round trip against an '
+         'independent reference rendering (label B), never counted.',
+    design_ref='DESIGN.md section 4 (C17), section 5, section 8',
+    note='level other: lemmas by structural scan (no bound) + C01; text layer and parser inverse bounded (random NT/FT hands, 2-4 players, '
+         'equal stacks, every viewer seat).',
+    technique='AST data-flow scans of the real source + the C01 invariant for the lemmas; bounded generate / parse / replay / regenerate stand-in')
+
 NOT_APPLICABLE = {
     'C20': 'regex-driven text importers against external site formats; no contract within reach expresses or decides it (DESIGN.md section 5)',
 }
